@@ -350,6 +350,10 @@ _amend("C08", "text", "they are false on the pinned tree for boundaries inserted
        "they are false on the pinned tree for boundaries inserted/moved at a word edge and empty structures (known findings D8a-D8c); whole-word deletion (D8d: the only-segment "
        "guard read the ORIGINAL word) was repaired (fix: b5ca3af).")
 
+CLAIMED["C08"]["text"] = CLAIMED["C08"]["text"] + (" DELETION (Props/C08Delete, over the port of the deletion code shared by the Deletion arm of transform and the surplus-input tail of "
+       "substitution, after the repair of D8d): whatever elements one match captured - segments, syllables, boundaries, in any number - every word the deletion returns still "
+       "has a syllable (deleteEls_keeps, transform_deletion_keeps); before the repair the statement was false.")
+
 
 def main():
     checks = []
